@@ -14,11 +14,18 @@ if '--repo' in args:
     i = args.index('--repo'); repo = args[i + 1]; del args[i:i + 2]
 ids = args or ['C%02d' % i for i in range(1, 21)]
 d = tempfile.mkdtemp(prefix='verifcov-')
-env = dict(os.environ, VERIF_COVERAGE=d, MICROSCHC_REPO=repo)
-procs = [(i, subprocess.Popen([os.path.join(V, 'check'), i, '--tier', tier], env=env, stdout=subprocess.PIPE, stderr=subprocess.STDOUT)) for i in ids]
-for i, p in procs:
-    out = p.communicate()[0].decode(errors='replace')
-    print(i, 'exit', p.returncode, out.strip().split('\n')[-1][:160])
+env = dict(os.environ, VERIF_COVERAGE=d, MICROSCHC_REPO=repo, VERIF_TIME_FACTOR='15')
+from concurrent.futures import ThreadPoolExecutor
+
+
+def one(i):
+    p = subprocess.run([os.path.join(V, 'check'), i, '--tier', tier], env=env, stdout=subprocess.PIPE, stderr=subprocess.STDOUT)
+    return i, p.returncode, p.stdout.decode(errors='replace').strip().split('\n')[-1][:160]
+
+
+with ThreadPoolExecutor(max_workers=int(os.environ.get('VERIF_JOBS', '5'))) as ex:
+    for i, rc, last in ex.map(one, ids):
+        print(i, 'exit', rc, last)
 import coverage
 cov = coverage.Coverage(data_file=os.path.join(d, 'combined'), branch=True)
 cov.combine([os.path.join(d, f) for f in os.listdir(d) if f.startswith('cov.')])
